@@ -476,7 +476,7 @@ func cmdCheck(args []string) int {
 						replayMismatch++
 					}
 				case "cover":
-					if strings.Contains(joined, "VREPLAY-COVER "+p.v.Label) && !strings.Contains(joined, "VREPLAY-VIOLATION") && !strings.Contains(joined, "VREPLAY-PANIC") {
+					if strings.Contains(joined, "VREPLAY-COVER "+p.v.Label) && !strings.Contains(joined, "VREPLAY-PANIC") && !strings.Contains(joined, "VREPLAY-ASSUME-FAILED") {
 						validated++
 					} else {
 						replayMismatch++
